@@ -576,7 +576,16 @@ class UnitDatabase(Singleton):
         )
 
         self.categories_to_quantity_types[category] = info
+        self._ForgetMemoizedResults()
         return info
+
+    def _ForgetMemoizedResults(self) -> None:
+        """
+        A registration may change the outcome of unit checks and quantity creations which were
+        memoized before it (including failed ones), so the memo tables must not outlive it.
+        """
+        self.quantities_cache.clear()
+        self._category_unit_valid.clear()
 
     def IsValidCategory(self, category: str) -> bool:
         """
@@ -796,6 +805,7 @@ class UnitDatabase(Singleton):
             raise RuntimeError("Unit already registered: {} ({})".format(name, unit))
 
         quantity_type_list.append(info)
+        self._ForgetMemoizedResults()
 
     def AddUnitBase(self, quantity_type: str, name: str, unit: str) -> None:
         """
